@@ -144,12 +144,17 @@ def check_variants(ck, recs, cases, allcfgs):
 # programs
 # --------------------------------------------------------------------------
 def line_program(rng, literal_comment=False):
-    """A program made of whole lines, returned in block form (A) and in line form (B).
+    """A program made of whole lines, returned in block form (A), in line form (B) and in a MIXED
+    form (M: every whole-line tag independently in one of its two spellings, so that line statements
+    / line comments and block tags / comments stand on neighbouring lines; None when there is no
+    spelling besides A and B).
     Whole-line block tag  <indent>{% B %}\\n   <->  <indent>% B\\n
     Whole-line comment    <indent>{# c +#}\\n  <->  <indent>## c\\n   (the documentation: a line
     comment runs to the end of the line 'excluding the newline sign'); with literal_comment the
-    comment is written {# c #} as the property states it."""
-    a, b = [], []
+    comment is written {# c #} as the property states it.
+    The line after a line statement is never blank (undetermined shape); it may be a text line or,
+    just as well, the next (indented) tag line."""
+    rows = []    # (block spelling, line spelling) per line; the same list twice for a text line
     n = rng.randint(2, 6)
     has_comment = False
     for i in range(n):
@@ -159,30 +164,36 @@ def line_program(rng, literal_comment=False):
         indent = rng.choice(["", "", "__", "t", "_t"])
         if x < 0.35:
             body = rng.choice(["_B", "_B_", "B", "tB"])
-            a += [lu.text(indent)] if indent else []
-            a += [lu.P("block", "", "", body)] + ([lu.text(nl)] if nl else [])
-            b += [lu.P("lstmt", b=body, i=indent, t=nl)]
-            if nl and not last:
-                # the next line must not be blank
-                t = lu.text(rng.choice(["a", "a_", "_a"]) + "n")
-                a.append(t)
-                b.append(t)
+            blk = ([lu.text(indent)] if indent else []) + [lu.P("block", "", "", body)] + ([lu.text(nl)] if nl else [])
+            rows.append((blk, [lu.P("lstmt", b=body, i=indent, t=nl)]))
+            if nl and not last and rng.random() < 0.5:
+                t = [lu.text(rng.choice(["a", "a_", "_a"]) + "n")]
+                rows.append((t, t))
         elif x < 0.6:
             body = rng.choice(["_a", "a_a", "_a_", ""])
             has_comment = True
-            a += [lu.text(indent)] if indent else []
-            a += [lu.P("comment", "", "" if literal_comment else "+", body if body else "_")]
-            a += [lu.text(nl)] if nl else []
-            b += [lu.P("lcomment", b=body if body else "_", i=indent)] + ([lu.text(nl)] if nl else [])
+            blk = ([lu.text(indent)] if indent else [])
+            blk += [lu.P("comment", "", "" if literal_comment else "+", body if body else "_")]
+            blk += [lu.text(nl)] if nl else []
+            rows.append((blk, [lu.P("lcomment", b=body if body else "_", i=indent)] + ([lu.text(nl)] if nl else [])))
         else:
             t = [lu.text(rng.choice(["a", "_a", "a_a", "a_"]))]
             if rng.random() < 0.4:
                 t.append(lu.P("var", rng.choice(["", "-"]), "", "_V_"))
             if nl:
                 t.append(lu.text(nl))
-            a += t
-            b += t
-    return a, b, has_comment
+            rows.append((t, t))
+    a = [p for blk, _ in rows for p in blk]
+    b = [p for _, lin in rows for p in lin]
+    m = None
+    two = [j for j, (blk, lin) in enumerate(rows) if blk is not lin]
+    if len(two) >= 2:
+        pick = [rng.random() < 0.5 for _ in two]
+        if all(pick) or not any(pick):
+            pick[rng.randrange(len(pick))] ^= True
+        as_line = {j for j, f in zip(two, pick) if f}
+        m = [p for j, (blk, lin) in enumerate(rows) for p in (lin if j in as_line else blk)]
+    return a, b, has_comment, m
 
 
 # --------------------------------------------------------------------------
@@ -384,8 +395,9 @@ def run(ck):
                           "alt": {"ps": ps, "c": idx[(nxt, t, l, keep)]}})
     # (2) whole-line tags as line statements / line comments, in a trimming + left-stripping environment
     n_line = 350 if quick else 10000
+    n_mixed = 0
     for pi in range(n_line):
-        a, b, _ = line_program(rng)
+        a, b, _, m = line_program(rng)
         fam = rng.choice(("default", "multi"))
         keep = rng.random() < 0.3
         variant = rng.randrange(len(lu.VARIANTS))
@@ -393,12 +405,16 @@ def run(ck):
         cases.append({"ps": a, "c": ca, "st": True, "prog": f"l{pi}", "variant": variant, "alt": {"ps": b, "c": cb}})
         cases.append({"ps": a, "c": cb, "st": True, "prog": f"l{pi}", "variant": variant, "alt": {"ps": b, "c": cb}})
         cases.append({"ps": b, "c": cb, "st": True, "prog": f"l{pi}", "variant": variant, "alt": {"ps": a, "c": ca}})
+        if m is not None:
+            # only some of the whole-line tags rewritten: line statements next to block tags
+            cases.append({"ps": m, "c": cb, "st": True, "prog": f"l{pi}", "variant": variant, "alt": {"ps": a, "c": ca}})
+            n_mixed += 1
     # (3) the property read literally: whole-line {# c #} <-> ## c  (no TLC equality asserted: the
     #     documented rules themselves say the line comment keeps its newline)
     n_lit = 60 if quick else 600
     k = 0
     while k < n_lit:
-        a, b, has_comment = line_program(rng, literal_comment=True)
+        a, b, has_comment, _ = line_program(rng, literal_comment=True)
         if not has_comment:
             continue
         variant = rng.randrange(len(lu.VARIANTS))
@@ -414,6 +430,7 @@ def run(ck):
             raise core.MachineryError(f"TLC finished {len(recs)} of {len(part)} cases")
         check_variants(ck, recs, part, allcfgs)
     ck.extra["program_variants"] = len(cases)
+    ck.extra["mixed_line_spellings"] = n_mixed
 
     # (4) the shared lexer / environment caches
     run_cache(ck, rng, quick)
